@@ -35,21 +35,38 @@ class EndOfAttempt(BaseException):
 
 
 class FakeFuture:
+    """asyncio.Future's state machine without a loop"""
+
     def __init__(self):
-        self._r, self._e, self._d = None, None, False
+        self._r, self._e, self._d, self._c = None, None, False, False
 
     def done(self):
         return self._d
 
+    def cancelled(self):
+        return self._c
+
     def set_result(self, r):
+        if self._d:
+            raise asyncio.InvalidStateError("invalid state")
         self._r, self._d = r, True
 
     def set_exception(self, e):
+        if self._d:
+            raise asyncio.InvalidStateError("invalid state")
         self._e, self._d = (e() if isinstance(e, type) else e), True
+
+    def cancel(self, msg=None):
+        if self._d:
+            return False
+        self._d = self._c = True
+        return True
 
     def __await__(self):
         if not self._d:
             yield self
+        if self._c:
+            raise asyncio.CancelledError()
         if self._e:
             raise self._e
         return self._r
